@@ -475,7 +475,13 @@ class LocalEngine(BaseEngine):
         samples, samples_dict = self._combine_and_sort_samples(samples_dict)
 
         if isinstance(prog, TDMProgram) and samples_dict:
-            samples_dict = reshape_samples(samples_dict, prog.measured_modes, prog.N, prog.timebins)
+            samples_dict = reshape_samples(
+                samples_dict,
+                prog.measured_modes,
+                prog.N,
+                prog.timebins,
+                mode_order=prog.get_mode_order(),
+            )
             # crop vacuum modes arriving at the detector before the first computational mode
             if kwargs.get("crop", False):
                 samples_dict[0] = samples_dict[0][:, prog.get_crop_value() :]
